@@ -1317,8 +1317,34 @@ func genSnapshot(r *rand.Rand, id string, size int, total int) []string {
 	} else {
 		g.add("snapsave %d", p)
 	}
+	late := 0
+	if !pendingQueue && g.pick(2) == 0 {
+		// acknowledged writes AFTER the snapshot: the cache names the last of them, the snapshot does not
+		// hold them; the store that loads the snapshot and then writes must not forget them (F33)
+		late = 1 + g.pick(3)
+		for i := 0; i < late; i++ {
+			if kind == "log" {
+				g.add("add %d %s", p, hx(g.value()))
+			} else {
+				g.add("put %d %s %s", p, hx([]byte{byte('a' + g.pick(3))}), hx(g.value()))
+			}
+		}
+		g.add("obs %d", p)
+	}
 	g.add("restartsnap %d", p)
 	g.add("obs %d", p)
+	if late > 0 {
+		// (this write ties with the first late one — same writer, same Lamport time — and the order of
+		// tied entries is undetermined: a key of its own keeps the view independent of it)
+		if kind == "log" {
+			g.add("add %d %s", p, hx(g.value()))
+		} else {
+			g.add("put %d %s %s", p, hx([]byte{'z'}), hx(g.value()))
+		}
+		g.add("obs %d", p)
+		g.add("restart %d -1", p)
+		g.add("obs %d", p)
+	}
 	return g.lines
 }
 
